@@ -11,7 +11,7 @@
         // C37: whoever asked for the repository gets a result only after it was recorded as updated
         res is Ok ==> in_updated(run_of(&self.updated), *rpki_notify),
         final(clk).now >= old(clk).now,
-//@ closure 1
+//@ closure then 1 optional
 || -> (r: FmtArgs)
 //@ exit
         // C37: the mutex taken from `running` is held until the function returns: `_lock` is the guard
